@@ -531,9 +531,12 @@ SignalHandler::~SignalHandler() {
 
 void SignalHandler::SetHandler(InterruptHandler handler, void *data) {
   MP_VERIF_SIGNAL_POINT("set:0");
-  handler_ = handler;
-  MP_VERIF_SIGNAL_POINT("set:1");
+  // Disarm first: a signal arriving between the stores must never see
+  // the new handler paired with the data of the previous registration.
+  handler_ = 0;
   data_ = data;
+  MP_VERIF_SIGNAL_POINT("set:1");
+  handler_ = handler;
   MP_VERIF_SIGNAL_POINT("set:2");
 }
 
